@@ -121,7 +121,8 @@ def compare_model(m, spec, rng, counters, bad, n_points=3, evaluators=("ode", "v
         for i in range(shape[0]):
             for j in range(shape[1]):
                 counters["symbolic_comparisons"] += 1
-                eq, how = same_expr(got[i, j], exp[i, j], rng, names)
+                terms = ([ref.V[i, k_] * ref.R[k_] for k_ in range(nE)] + [ref.O[i]]) if rname == "ode" else ()
+                eq, how = same_expr(got[i, j], exp[i, j], rng, names, scale_terms=terms)
                 counters["sym_" + how] = counters.get("sym_" + how, 0) + 1
                 if not eq:
                     bad("%s differs from the definition" % meth, entry=[i, j], got=str(got[i, j]), expected=str(exp[i, j]))
